@@ -800,7 +800,7 @@ XBIG = {
     "3577->32755:gen": (3577, (25.0, 0.0, 1500000.0, 0.0, -25.0, -3900000.0), 32755, 30.0),
     "3857->4326:gen": (3857, (32.0, 0.0, 1600000.0, 0.0, -32.0, 7200000.0), 4326, 0.00025),
 }
-BIG_OFFS = (-1.5, -0.5, 0.0, 0.5, 1.5)
+BIG_OFFS = (-1.5, -0.5, 0.0, 1.5)  # quick; thorough: 7 offsets incl. +0.5, +-3
 
 
 def gen_pair_big():
@@ -1184,6 +1184,271 @@ def run_history(case):
 
 
 # =================================================================================================
+# query geometries of every type (points, lines, collections, polygons with holes)
+# =================================================================================================
+# Oracle in the pixel plane with exact rationals: all query coordinates and tile edges are dyadic.
+#   REQUIRED  - the geometry has a point strictly inside the tile's open rectangle
+#   FORBIDDEN - the geometry is disjoint from the closed rectangle
+#   otherwise (boundary contact only: a line through a tile corner, a point on an edge, a tile that exactly
+#   fills a hole) neither.  Where the pixel->query mapping is not exact in binary64 (rotated raster, query in
+#   EPSG:4326, where in addition "straight" has two readings) the rectangle is shrunk / grown by 2^-10 px
+#   first; every non-zero clearance in this alphabet is > 4e-3 px.
+from fractions import Fraction as _Fr  # noqa: E402
+
+GT_CFGS = {
+    # tiling kind -> (base, layout)
+    "regular": ("utm", "8x8/4x4"),
+    "variable": ("utm", "8x10/var"),
+    "rotated": ("rot30", "8x10/var"),
+    "south-up": ("yup", "7x10/3x4"),
+}
+GT_DELTA = _Fr(1, 1024)
+
+
+def _gt_axis(off):
+    n = off[-1]
+    vals = {_Fr(-3, 2), _Fr(n) + _Fr(3, 2)}
+    vals.update(_Fr(e) for e in off)
+    vals.update(_Fr(e) + _Fr(3, 4) for e in off[:-1])
+    return sorted(vals)
+
+
+def gt_points(layout):
+    yo, xo = layout_offsets(layout)
+    return [(x, y) for y in _gt_axis(yo) for x in _gt_axis(xo)]
+
+
+def gt_menu(layout):
+    """Small menu for 3-part geometries: interiors of the four extreme tiles, an inner tile corner, points on an
+    inner edge and on the raster edge, two points outside."""
+    yo, xo = layout_offsets(layout)
+    q = _Fr(3, 4)
+    xi, yi = _Fr(xo[1]), _Fr(yo[1])
+    return [
+        (xo[0] + q, yo[0] + q), (xo[-2] + q, yo[0] + q), (xo[0] + q, yo[-2] + q), (xo[-2] + q, yo[-2] + q),
+        (xi, yi), (xi, yo[0] + q), (_Fr(xo[-1]), yo[-2] + q), (_Fr(-3, 2), yo[0] + q), (xo[-1] + _Fr(3, 2), yo[-1] + _Fr(3, 2)),
+    ]
+
+
+def _grow(rc, d):
+    return (rc[0] - d, rc[1] - d, rc[2] + d, rc[3] + d)
+
+
+def pt_in_open(p, rc):
+    return rc[0] < p[0] < rc[2] and rc[1] < p[1] < rc[3]
+
+
+def pt_in_closed(p, rc):
+    return rc[0] <= p[0] <= rc[2] and rc[1] <= p[1] <= rc[3]
+
+
+def seg_hits(p, q, rc, open_):
+    """Exact: does the closed segment pq meet the (open / closed) rectangle."""
+    if p == q:
+        return pt_in_open(p, rc) if open_ else pt_in_closed(p, rc)
+    lo, hi = _Fr(0), _Fr(1)  # closed parameter range; strict bounds tracked separately for the open rectangle
+    slo, shi = None, None
+    for a, d, mn, mx in ((p[0], q[0] - p[0], rc[0], rc[2]), (p[1], q[1] - p[1], rc[1], rc[3])):
+        if d == 0:
+            if open_:
+                if not mn < a < mx:
+                    return False
+            elif not mn <= a <= mx:
+                return False
+            continue
+        t1, t2 = (mn - a) / d, (mx - a) / d
+        if t1 > t2:
+            t1, t2 = t2, t1
+        if open_:
+            slo = t1 if slo is None else max(slo, t1)
+            shi = t2 if shi is None else min(shi, t2)
+        else:
+            lo, hi = max(lo, t1), min(hi, t2)
+    if not open_:
+        return lo <= hi
+    if slo is None:  # both deltas zero is handled above
+        return True
+    return slo < shi and slo < 1 and shi > 0
+
+
+def part_cls(part, rc, delta):
+    """'req' / 'forb' / 'band' for one part against one tile rectangle (exact)."""
+    kind = part[0]
+    rin, rout = _grow(rc, -delta), _grow(rc, delta)
+    if kind == "pt":
+        if pt_in_open(part[1], rin):
+            return "req"
+        return "band" if pt_in_closed(part[1], rout) else "forb"
+    if kind == "line":
+        pts = part[1]
+        segs = list(zip(pts[:-1], pts[1:]))
+        if any(seg_hits(a, b, rin, True) for a, b in segs):
+            return "req"
+        return "band" if any(seg_hits(a, b, rout, False) for a, b in segs) else "forb"
+    if kind == "holed":  # closed outer rectangle minus the open hole rectangle
+        O, H = part[1], part[2]
+        r1 = (max(rin[0], O[0]), max(rin[1], O[1]), min(rin[2], O[2]), min(rin[3], O[3]))
+        if r1[0] < r1[2] and r1[1] < r1[3]:
+            if H is None or not (H[0] <= r1[0] and r1[2] <= H[2] and H[1] <= r1[1] and r1[3] <= H[3]):
+                return "req"
+        r2 = (max(rout[0], O[0]), max(rout[1], O[1]), min(rout[2], O[2]), min(rout[3], O[3]))
+        if r2[0] > r2[2] or r2[1] > r2[3]:
+            return "forb"
+        if H is not None and H[0] < r2[0] and r2[2] < H[2] and H[1] < r2[1] and r2[3] < H[3]:
+            return "forb"
+        return "band"
+    raise ValueError(kind)
+
+
+def _gt_shapely(part, fwd):
+    from shapely.geometry import LineString, Point  # pylint: disable=import-outside-toplevel
+
+    if part[0] == "pt":
+        return Point(fwd([part[1]])[0])
+    if part[0] == "line":
+        return LineString(fwd(part[1]))
+    O, H = part[1], part[2]
+    outer = fwd(rect_pts(*O))
+    holes = [] if H is None else [fwd(rect_pts(*H))[::-1]]
+    return Polygon(outer, holes)
+
+
+def gt_build(gtype, parts, fwd):
+    from shapely.geometry import GeometryCollection, MultiLineString, MultiPoint  # pylint: disable=import-outside-toplevel
+
+    shp = [_gt_shapely(pt, fwd) for pt in parts]
+    if gtype in ("Point", "LineString", "Polygon-with-hole"):
+        assert len(shp) == 1
+        return shp[0]
+    if gtype == "MultiPoint":
+        return MultiPoint(shp)
+    if gtype == "MultiLineString":
+        return MultiLineString(shp)
+    if gtype == "GeometryCollection":
+        return GeometryCollection(shp)
+    raise ValueError(gtype)
+
+
+def gt_judge(r, tiling, qc, geoms):
+    """geoms: list of (geometry type, parts, description). One call of tiles() per entry."""
+    base, layout = GT_CFGS[tiling]
+    c = cfg(base, layout)
+    gbt, A6, epsg = c["gbt"], c["A"], c["epsg"]
+    qepsg = epsg if qc == "same" else 4326
+    exact = qc == "same" and base in ("utm", "yup", "flipx")
+    delta = _Fr(0) if exact else GT_DELTA
+    rects = tile_rects(layout)
+
+    def fwd(pts):
+        return project_pts([aff_apply(A6, float(x), float(y)) for x, y in pts], epsg, qepsg)
+
+    nreq = nband = ngot = 0
+    for gtype, parts, desc in geoms:
+        g = geom.Geometry(gt_build(gtype, parts, fwd), f"EPSG:{qepsg}")
+        what = f"{tiling} ({base} {layout}) {gtype} {desc} [pixel coordinates] given in EPSG:{qepsg}"
+        key = f"tiles:{gtype}:{tiling}:{qc}-crs"
+        got = as_idx_set(gbt.tiles(g), r, key, what)
+        ngot += len(got)
+        bad = sorted(got - set(rects))
+        if bad:
+            r.fail(f"{key}:index-out-of-range", f"{what}: {bad}")
+        for idx, rc in rects.items():
+            cls = [part_cls(pt, rc, delta) for pt in parts]
+            if "req" in cls:
+                nreq += 1
+                if idx not in got:
+                    r.fail(f"{key}:missing", f"{what}: passes through the interior of tile {idx} {rc} but got {sorted(got)}")
+            elif all(k == "forb" for k in cls):
+                if idx in got:
+                    r.fail(f"{key}:extra", f"{what}: does not meet tile {idx} {rc} but got {sorted(got)}")
+            else:
+                nband += 1
+    return nreq, nband, ngot
+
+
+def _fmt(pts):
+    return "[" + ", ".join(f"({float(x):g},{float(y):g})" for x, y in pts) + "]"
+
+
+def gen_gt_pairs():
+    for tiling, (_, layout) in GT_CFGS.items():
+        n = len(gt_points(layout))
+        for qc in ("same", "other"):
+            for i in range(n):
+                for j in range(i, n):
+                    yield (tiling, qc, i, j)
+
+
+def run_gt_pairs(case):
+    tiling, qc, i, j = case
+    P = gt_points(GT_CFGS[tiling][1])
+    a, b = P[i], P[j]
+    r = R()
+    if i == j:
+        geoms = [("Point", [("pt", a)], _fmt([a])), ("MultiPoint", [("pt", a)], _fmt([a]))]
+    else:
+        geoms = [
+            ("LineString", [("line", [a, b])], _fmt([a, b])),
+            ("MultiPoint", [("pt", a), ("pt", b)], _fmt([a, b])),
+        ]
+    nreq, nband, ngot = gt_judge(r, tiling, qc, geoms)
+    r.outcome = f"types:{'point' if i == j else 'segment+2points'}:req={bucket(nreq, -1)}:{'touch' if nband else 'clean'}:got={bucket(ngot, -1)}"
+    return r
+
+
+def gen_gt_multi():
+    for tiling, (_, layout) in GT_CFGS.items():
+        m = len(gt_menu(layout))
+        for qc in ("same", "other"):
+            for i, j, k in itertools.permutations(range(m), 3):
+                if i < k:
+                    yield (tiling, qc, "triple", i, j, k)
+            ntile = len(tile_rects(layout))
+            for t, mi, oi in itertools.product(range(ntile), range(5), range(2)):
+                yield (tiling, qc, "hole", t, mi, oi)
+
+
+HOLE_MARGINS = (_Fr(1, 2), _Fr(1, 4), _Fr(0), _Fr(-1, 4), None)  # hole = tile grown by m; None = no hole
+
+
+def run_gt_multi(case):
+    tiling, qc, what, i, j, k = case
+    layout = GT_CFGS[tiling][1]
+    r = R()
+    if what == "triple":
+        M = gt_menu(layout)
+        a, b, c_ = M[i], M[j], M[k]
+        node = M[4]
+        geoms = [
+            ("LineString", [("line", [a, b, c_])], _fmt([a, b, c_])),
+            ("MultiPoint", [("pt", a), ("pt", b), ("pt", c_)], _fmt([a, b, c_])),
+            ("MultiLineString", [("line", [a, b]), ("line", [c_, node])] if c_ != node else [("line", [a, b]), ("line", [b, c_])],
+             _fmt([a, b]) + " + " + _fmt([c_, node])),
+            ("GeometryCollection", [("pt", a), ("line", [b, c_])], "Point " + _fmt([a]) + " + LineString " + _fmt([b, c_])),
+        ]
+    else:
+        rects = tile_rects(layout)
+        rc = rects[sorted(rects)[i]]
+        (ny, nx), _ = LAYOUTS[layout]
+        m = HOLE_MARGINS[j]
+        if k == 0:
+            O = (_Fr(-3, 2), _Fr(-3, 2), nx + _Fr(3, 2), ny + _Fr(3, 2))
+        else:  # outer ring hugging the raster: its boundary runs along the outer tile edges
+            O = (_Fr(-1, 2), _Fr(-1, 2), nx + _Fr(1, 2), ny + _Fr(1, 2))
+        H = None if m is None else tuple(_Fr(v) for v in _grow(rc, m))
+        if H is not None and not (O[0] < H[0] and H[2] < O[2] and O[1] < H[1] and H[3] < O[3]):
+            H = None  # hole would cut the outer ring: plain polygon
+        geoms = [
+            ("Polygon-with-hole", [("holed", O, H)], f"outer {tuple(map(float, O))} hole {None if H is None else tuple(map(float, H))}"),
+            ("GeometryCollection", [("holed", O, H), ("pt", (rc[0] + _Fr(3, 4), rc[1] + _Fr(3, 4)))],
+             f"holed polygon + Point inside tile {sorted(rects)[i]}"),
+        ]
+    nreq, nband, ngot = gt_judge(r, tiling, qc, geoms)
+    r.outcome = f"types:{what}:req={bucket(nreq, -1)}:{'touch' if nband else 'clean'}:got={bucket(ngot, -1)}"
+    return r
+
+
+# =================================================================================================
 def slices(tier):
     _TIER[0] = tier
     return [
@@ -1209,6 +1474,12 @@ def slices(tier):
                  "rasters of 80-120 tiles (Albers, UTM, two lon/lat) x {densified box, apex triangle, densified apex "
                  "triangle} in the other CRS x half-width x asymmetry about the central meridian x pinned N/S side x "
                  "tile boundary x overshoot in pixels; geometry query exact"),
+        e1.Slice("query-types-pairs", gen_gt_pairs, run_gt_pairs,
+                 "{regular, variable, rotated, south-up} x {same CRS, EPSG:4326} x every unordered pair of lattice points "
+                 "{outside, every tile edge, tile interiors}: Point / MultiPoint / LineString; exact rational oracle"),
+        e1.Slice("query-types-multi", gen_gt_multi, run_gt_multi,
+                 "same tilings x CRS x every ordered triple from a 9-point menu: 3-vertex LineString, MultiPoint, "
+                 "MultiLineString, GeometryCollection; polygon with a hole = each tile grown by {1/2, 1/4, 0, -1/4} / none"),
         e1.Slice("pairs-layout-menu", gen_layouts, run_layouts,
                  "30x24 px, every ordered pair of 48 layouts (8 row chunkings x 6 column chunkings, regular and "
                  "irregular, equal and unequal tile counts) x {identical grid, whole-pixel shift, scale 2, scale 1/2}; "
